@@ -246,6 +246,9 @@ def judge(tokens, out, want, ra=False):
                         gens_of_pub.setdefault(completed, set()).add(memgen)
                         if want in ("C03", "C04", "C02") and it["val"] % 2 == 1:
                             bad.append("a completed update left the generation odd (%d): clients keep serving their previous record" % it["val"])
+                        if want in ("C03", "C04") and it["val"] == 0:
+                            bad.append("a completed update left the generation 0: the segment reads 'being re-initialised', attached clients keep serving "
+                                       "their previous record although the publication is complete, and nobody can attach")
                     if want == "C04" and it["val"] == 0:
                         bad.append("writer stored generation 0")
                 for cj in calls.values():
